@@ -243,4 +243,15 @@ def run (c : Chan) : List Op → Chan × List Out
     let r2 := run r.1 ops
     (r2.1, r.2 ++ r2.2)
 
+/-- what a producer of the source census (`Gen.updateSites`) hands to chain::Watch ITSELF for the update `id` it just generated, by class —
+    each class's decision is the translated one: "queued" = push_ret_blockable_mon_update, "raa-release-monitor" = revoke_and_ack's
+    release_monitor, "preimage-jump" = the id get_update_fulfill_htlc_and_commit takes, "inner" = returned to a census caller (never handed by
+    itself), "direct-close" = ChannelForceClosed of a channel that is gone -/
+def siteHandsOver (cls : String) (blocked : List Nat) (hold : Bool) (id : Nat) : Option Nat :=
+  if cls == "queued" then (Gen.pushBlockable blocked id).2
+  else if cls == "raa-release-monitor" then (if Gen.raaReleaseMonitor blocked.isEmpty hold then some id else none)
+  else if cls == "preimage-jump" then some (Gen.claimJump blocked id).1
+  else if cls == "inner" then none
+  else some id
+
 end Ldk.MonGate.Gate
